@@ -30,3 +30,5 @@ Definition tagged_max (k : N) : N :=
   | 6 => 1099511627775 | 7 => 281474976710655 | 8 => 72057594037927935
   | 9 => 18446744073709551615 | _ => 0
   end.
+
+(* EXTRACT: tagged_spec tagged_denote tagged_max *)
